@@ -113,10 +113,11 @@ def current(repo, gobkgen, env):
     for a, bs in EXTRA_EDGES.items():
         edges.setdefault(a, set()).update(bs)
     # interface dispatch on elliptic.Curve: a function that calls a method with one of these (distinctive) names
-    # through a selector may reach the KoblitzCurve implementation of every curve method
+    # through a selector may reach the KoblitzCurve implementation of THAT method
     for fn, names in sels.items():
-        if CURVE_SELECTORS & set(names) and not fn.startswith("bec.KoblitzCurve."):
-            edges.setdefault(fn, set()).update(_CURVE_METHODS)
+        if not fn.startswith("bec.KoblitzCurve."):
+            for nm in CURVE_SELECTORS & set(names):
+                edges.setdefault(fn, set()).add("bec.KoblitzCurve." + nm)
     return pins, edges
 
 
